@@ -5,7 +5,7 @@ package main
 import (
 	"go/token"
 
-	"golang.org/x/tools/go/ssa"
+	"trzszlint/xssa"
 )
 
 func init() {
